@@ -18,7 +18,7 @@ SHARD_DEADLINE = {'quick': 300, 'thorough': 3300}
 
 
 def floors(tier):
-    return {'distinct_nontrivial': 3000 if tier == 'quick' else 40000, 'hodge_vs_reference': 500, 'polarity_vs_reference': 200,
+    return {'distinct_nontrivial': 3000 if tier == 'quick' else 300000, 'hodge_vs_reference': 500, 'polarity_vs_reference': 200,
             'round_trips': 1500, 'blade_wedge_hodge': 800, 'polarity_raises_degenerate': 30, 'polarity_returns_nondegenerate': 25,
             'rp_vs_reference': 500, 'rp_vs_own_composition': 500, 'pss_identity_of_rp': 500, 'dual_kind_selection': 400,
             'pss_sq_plus': 15, 'pss_sq_minus': 15, 'odd_oriented_pss_configs': 2}
@@ -43,13 +43,13 @@ def plan(tier, seed):
         nshards = 16
     else:
         cfgs = gen.sig_orderings(1, 4) + gen.pqr_all(4, 4)
-        cfgs += [gen.random_custom_cfg(rng, rng.choice((2, 3, 3, 4, 4, 5))) for _ in range(150)] + gen.NAMED
+        cfgs += [gen.random_custom_cfg(rng, rng.choice((2, 3, 3, 4, 4, 5))) for _ in range(600)] + gen.NAMED
         for s in (0, 1, 2):
             cfgs += [{'p': 2, 'q': 1, 'r': 0, 'start_index': s}, {'p': 1, 'q': 0, 'r': 2, 'start_index': s}]
         for c in cfgs:
-            U += u(c, 'random', 1, count=40, cap=8, blades=True)
+            U += u(c, 'random', 1, count=150, cap=8, blades=True)
         for c in gen.pqr_all(5, 6) + gen.sig_orderings(5, 5)[::9]:
-            U += u(c, 'sparse', 1, count=30, cap=5, blades=(gen.cfg_dim(c) == 5))
+            U += u(c, 'sparse', 1, count=150, cap=5, blades=(gen.cfg_dim(c) == 5))
         nshards = 64
     rng.shuffle(U)
     return [{'units': part} for part in gen.split(U, nshards)]
